@@ -1,28 +1,32 @@
 """C20 — precision refinement only promotes channels and never raises the cost.
 
-proof leg            lean/PlinioVerif/Props/C20.lean: the reassignment's matrix is binary with at most
-                     one precision per channel (all inputs); "meets every count / exactly one" is FALSE
-                     at full strength (negation proved on witnesses) and proved under the decidable
-                     hypothesis `noOverlap` (no channel within the top-`target` of two precisions), where
-                     the result is exactly the top-`target` partition; the count-level search only moves
-                     channels up and its best-so-far cost never exceeds the initial cost (any cost
-                     function, any sizes).
+proof leg            lean/PlinioVerif/Props/C20.lean.  Reassignment: the matrix is binary with at most one
+                     precision per channel (all inputs); exactly one whenever the targets sum to the number
+                     of channels (all inputs); "meets every count" is FALSE at full strength (negation
+                     proved on a 2x2 witness) and proved under the decidable hypothesis `noOverlap` (no
+                     channel within the top-`target` of two precisions), where the result is exactly the
+                     top-`target` partition.  Search: every evaluated count vector is an upward move of
+                     the layer's counts, the applied vector is one and does not cost more than the initial
+                     one (any cost function, any precision order, any sizes); two `pinned_...` regression
+                     witnesses for the loop as it was before the ordering repair.  One layer end to end:
+                     counts = chosen and cost not higher under `noOverlap`; "no channel lower than
+                     before" is FALSE even without overlap (witnesses).
 correspondence leg   (1) `_reassign_precisions` vs `Drivers/C20.lean` on all score permutations of up to
                      6 (quick) / 8 (thorough) entries and sampled ones up to 4 x 8, each with every
-                     composition of the channel count as targets, plus every call made end to end;
-                     the Python class predicate (top-k overlap) is compared with the Lean one on every
-                     case.  (2) the sequence of count vectors `optimize_prec_assignment` hands to
-                     `_compute_cost`, the vectors it accepts and the vector it hands to the
-                     reassignment, on per-channel MPS nets with the NE16 cost, vs `refineLayer` given
-                     the same cost table (layers whose channel count is a power of two: counts are
-                     exact in float32).
+                     composition of the channel count as targets (8 sampled per matrix beyond the
+                     exhaustive sizes), plus every call made end to end; the Python class predicate
+                     (top-k overlap) is compared with the Lean one on every case.  (2) the sequence of
+                     count vectors `optimize_prec_assignment` hands to `_compute_cost`, the vectors it
+                     accepts (as printed) and the vector it hands to the reassignment, on per-channel MPS
+                     nets with the NE16 cost, vs `refineLayer` given the same cost table.  A layer takes
+                     part if every float32 fraction the cost model received is exactly the float32 of
+                     (whole channels)/C — true for every layer on the repaired tree.
 oracle leg           the property's statement on the real code: (a) every `_reassign_precisions` output
-                     is binary, one precision per channel, every count met; (b) end to end on 2-5
-                     layer nets: no channel lower than before, per-layer counts = the counts handed to
-                     the reassignment, NE16 cost (eval mode, hard sampling) not higher than before.
-                     Every failure is keyed by a class computed from the failing layer (precision
-                     tuple ascending?, chosen counts integral?, chosen counts dominate the old ones?,
-                     0-bit option?, top-k overlap?).
+                     is binary, one precision per channel, every count met; (b) end to end on nets of
+                     2-4 convs + optional linear head: no channel lower than before, per-layer counts =
+                     the counts handed to the reassignment, NE16 cost (eval mode, hard sampling) not
+                     higher than before.  Every failure is keyed by a class computed from the failing
+                     layer — see `_e2e_failures` and `reassign_failure`.
 """
 import contextlib
 import io
@@ -205,7 +209,7 @@ def _reassign_line(best, rows):
 # ------------------------------------------------------------------------------- end-to-end leg
 
 DYADIC = (4, 8, 16, 32, 64)
-OTHER = (3, 6, 12, 20, 24, 33, 40)
+OTHER = (3, 6, 12, 20, 24, 33, 40, 41, 47, 55)     # 41, 47, 55: float32 (k/C)*C < k for several k
 
 
 def _gen_spec(rng, quick, idx):
@@ -565,15 +569,17 @@ def _model_refine_view(ans):
 
 def run(chk):
     chk.rule = ('reassignment: every permutation of P*C distinct scores for P*C <= %d, random ones up to 4x8, '
-                'each with every composition of C into P targets (at most 40 sampled per matrix beyond that); '
+                'each with every composition of C into P targets (8 sampled per matrix beyond the exhaustive sizes); '
                 'non-trivial = the targets differ from the arg-max counts (something must move); distinct = '
                 'distinct (targets, matrix). end to end: nets of 2-4 convs (1x1/3x3, 3..64 channels) + optional '
-                'linear head, per-channel weights, 8-bit activations, NE16 cost, precision tuples (2,4,8), '
+                'linear head (a quarter of the layers with 3..55 channels that are no power of two), per-channel weights, 8-bit activations, NE16 cost, precision tuples (2,4,8), '
                 '(8,4,2), (0,2,4,8) [thorough: also (4,8,2), (2,8), (8,4,2,0), (4,8)], integer-valued alpha '
                 'matrices (random permutations / trained-looking); non-trivial = the search changed the '
                 'counts of some layer' % (6 if chk.quick else 8))
     chk.trusted.append('torch.argmax/argsort/isin and tensor index assignment as modelled by list functions '
-                       '(ties of scores excluded); float32 counts count/C exact for C a power of two')
+                       '(ties of scores excluded); channel counts carried as float32 fractions count/C, modelled as '
+                       'natural numbers (the harness checks every fraction it sees is exactly float32(k/C)); the '
+                       'cost model itself (NE16) is an arbitrary function of the count vector in the theorems')
     chk.prove()
     import torch  # noqa: F401  (fail early if the environment is broken)
     from plinio.methods.mps import utils as U
@@ -635,8 +641,9 @@ def run(chk):
         for c in range(C):
             cur[max(range(P), key=lambda p: rows[p][c])] += 1
         ov = overlap(best, rows)
+        take = cur != best and P >= 3 and C >= 3 and len(chk.samples) < 3
         chk.count((tuple(best), tuple(map(tuple, rows))), nontrivial=cur != best,
-                  sample={'best': best, 'scores': rows, 'impl': out},
+                  sample={'best': best, 'scores': rows, 'impl': out, 'overlap': ov} if take else None,
                   bucket='reassign:%dx%d' % (P, C))
         chk.hist['reassign:overlap=%d' % ov] = chk.hist.get('reassign:overlap=%d' % ov, 0) + 1
         f = reassign_failure(best, rows, out)
